@@ -428,7 +428,7 @@ class Nodes:
         elif typ is float:
             wrapped_value = Nodes.make_float_node(ast_value)
         elif typ is bool:
-            wrapped_value = ScalarBoolean(bool(value))
+            wrapped_value = ScalarBoolean(ast_value)
         elif typ is date:
             wrapped_value = AnchoredDate(
                 value.year, value.month, value.day)
